@@ -107,6 +107,15 @@ def run(ctx: Ctx) -> int:
 	ctx.log(f'diamond graph: deep header {dsound.distinct} states OK; replayed {dreplay["edges"]} edges ({dreplay["stats"].get("runs", 0)} real runs); {len(dreplay["failures"])} discrepancies')
 	seen = {v.key for v in violations}
 	violations += [v for v in collect(ctx, 'C06', dreplay) if v.key not in seen]
+	# long behaviours: random walks chosen by TLC, replayed step by step through the real runner
+	from harness.fs_replay import replay_walks
+	wres = tlc.run('TranpWalk', 'TranpWalk_runner.cfg', workers=1, timeout=900, seed=ctx.seed + 1)
+	wedges = [json.loads(line) for line in wres.lines('EDGE ')]
+	wreplay = replay_walks('Chain', wedges)
+	wreplay['graph'] = 'Chain'
+	ctx.log(f'random walks: {wreplay["jobs"]} behaviours of up to {wreplay["longest"]} operations from TranpWalk.tla replayed ({wreplay["stats"].get("runs", 0)} real runs); {len(wreplay["failures"])} discrepancies')
+	seen = {v.key for v in violations}
+	violations += [v for v in collect(ctx, 'C06', wreplay) if v.key not in seen]
 	v2, extra = outpath_cases(ctx)
 	violations += v2
 	ctx.log(f'OutPath: {extra["outpath_cases"]} mapping cases, {extra["headers_round_tripped"]} headers round-tripped')
@@ -124,6 +133,8 @@ def run(ctx: Ctx) -> int:
 		'bounds': {'graph': 'chain a->b->c and diamond a->{b,c}->d', 'variants': 2, 'operations': 4 if quick else 6},
 		'diamond_edges_replayed_on_impl': dreplay['edges'],
 		'diamond_real_runs': dreplay['stats'].get('runs', 0),
+		'random_walks_replayed': wreplay['jobs'],
+		'random_walk_length': wreplay['longest'],
 		'samples': [{'edge': edges[len(edges) // 2]['op']}],
 		**extra,
 	}
